@@ -476,12 +476,12 @@ func init() {
 		Instances: func(tier string, L *Loaded) []*HarnessCfg {
 			var r []*HarnessCfg
 			p := mod + "/mp4"
-			layouts := []string{"S", "Sf", "SS", "SfS", "N", "NN", "SE", "SM", "SSM"}
+			layouts := []string{"S", "Sf", "SS", "SfS", "N", "NN", "SE", "SM", "SSM", "DS", "SD"}
 			if tier == "thorough" {
 				layouts = append(layouts, "SSS", "SffS", "SfSf", "NNN", "SSSM", "SES")
 			}
 			for _, lay := range layouts {
-				hasStyp := lay[0] == 'S'
+				hasStyp := lay[0] == 'S' || lay[0] == 'D'
 				mfra := lay[len(lay)-1] == 'M'
 				for _, srp := range []string{"false", "true"} {
 					r = append(r, inst(p, "VerifC12Grouping", lay, "0", srp))
@@ -640,6 +640,76 @@ func init() {
 			Solver:      "cvc5", // UF + 128-bit arithmetic: cvc5 decides what z3 4.8.12 times out on
 			Assumptions: []string{"AES is an uninterpreted permutation E/D with D(k,E(k,x))=x (crypto/aes itself is trusted); CTR and CBC are modelled on top of it per SP 800-38A"},
 		}
+	}
+	propDefs["C10"] = &PropDef{
+		ID:       "C10",
+		Patterns: []string{"./mp4", "./cmd/mp4ff-crop"},
+		InitPkgs: []string{mod + "/mp4", mod + "/cmd/mp4ff-crop"},
+		Instances: func(tier string, L *Loaded) []*HarnessCfg {
+			var r []*HarnessCfg
+			p := mod + "/cmd/mp4ff-crop"
+			durs := map[string][]int{
+				"v":   {1, 39, 40, 41, 80, 81, 120, 200},
+				"vc":  {1, 40, 79, 80, 81, 120, 160},
+				"va":  {1, 20, 40, 41, 64, 80, 81, 100, 160},
+				"a":   {1, 21, 22, 43, 64, 100},
+				"vav": {1, 40, 41, 80, 120, 159, 160, 161, 250},
+			}
+			for _, lay := range []string{"v", "vc", "va", "a", "vav"} {
+				for v := 0; v < 4; v++ {
+					// symbolic duration: all crop durations 1..400 ms in one instance
+					c := inst(p, "VerifC10", lay, "-1", fmt.Sprint(v&1 == 1), fmt.Sprint(v&2 == 2))
+					c.MaxWallS = tierW(tier, 120, 900)
+					r = append(r, c)
+				}
+				for i, d := range durs[lay] {
+					for v := 0; v < 4; v++ {
+						if tier != "thorough" && v != i%4 {
+							continue
+						}
+						c := inst(p, "VerifC10", lay, itoa(d), fmt.Sprint(v&1 == 1), fmt.Sprint(v&2 == 2))
+						c.MaxWallS = tierW(tier, 60, 600)
+						r = append(r, c)
+					}
+				}
+			}
+			return r
+		},
+		Bounds: func(tier string) map[string]interface{} { return map[string]interface{}{} },
+		Covers: []string{"crop compared"}, RequireCovers: true,
+	}
+	propDefs["C11"] = &PropDef{
+		ID:       "C11",
+		Patterns: []string{"./mp4", "./examples/segmenter", "./examples/resegmenter", "./examples/combine-segs"},
+		InitPkgs: []string{mod + "/mp4", mod + "/examples/segmenter", mod + "/examples/resegmenter", mod + "/examples/combine-segs"},
+		Instances: func(tier string, L *Loaded) []*HarnessCfg {
+			var r []*HarnessCfg
+			for _, lay := range []string{"v", "vc", "va"} {
+				for _, d := range []int{1, 40, 80, 100, 200} {
+					for _, multi := range []string{"false", "true"} {
+						r = append(r, inst(mod+"/examples/segmenter", "VerifC11Segmenter", lay, itoa(d), multi))
+					}
+				}
+			}
+			for _, fs := range [][2]int{{1, 2}, {1, 4}, {2, 2}, {2, 3}} {
+				r = append(r, inst(mod+"/examples/resegmenter", "VerifC11Resegment", itoa(fs[0]), itoa(fs[1])))
+			}
+			if tier == "thorough" {
+				r = append(r, inst(mod+"/examples/resegmenter", "VerifC11Resegment", "3", "2"), inst(mod+"/examples/resegmenter", "VerifC11Resegment", "2", "4"))
+			}
+			for _, nk := range [][2]int{{1, 1}, {2, 1}, {2, 2}, {3, 2}} {
+				r = append(r, inst(mod+"/examples/combine-segs", "VerifC11Combine", itoa(nk[0]), itoa(nk[1])))
+			}
+			for n := 1; n <= tierN(tier, 4, 6); n++ {
+				r = append(r, inst(mod+"/mp4", "VerifC11Fragmentify", itoa(n)))
+			}
+			for _, c := range r {
+				c.MaxWallS = tierW(tier, 120, 900)
+			}
+			return r
+		},
+		Bounds: func(tier string) map[string]interface{} { return map[string]interface{}{} },
+		Covers: []string{"segmenter compared", "resegment compared", "combine compared", "fragmentify compared"}, RequireCovers: true,
 	}
 	propDefs["C13"] = &PropDef{
 		ID:       "C13",
